@@ -17,6 +17,7 @@ mod c07;
 #[cfg(feature = "shuttle")]
 mod c07shuttle;
 mod c11;
+mod c11big;
 #[cfg(feature = "alloc_world")]
 mod c18;
 #[cfg(feature = "alloc_world")]
@@ -29,6 +30,8 @@ mod workload;
 mod c16;
 #[cfg(not(feature = "nostd"))]
 mod c12;
+#[cfg(not(feature = "nostd"))]
+mod c12file;
 mod c17;
 
 use framework::{run_batch, BatchArgs, Scenario};
@@ -190,6 +193,26 @@ fn main() {
         }
         #[cfg(feature = "shuttle")]
         "shuttle-replay" => c07shuttle::replay(&arg_val(&args, "--schedule-file").unwrap_or_default()),
+        "bigstream" => {
+            let variant = parse_u64(&arg_val(&args, "--variant").unwrap_or_else(|| "1".into())) as u8;
+            let pattern = data::unhex(&arg_val(&args, "--pattern").unwrap_or_else(|| "a40e".into())).unwrap_or_else(|e| harness_error(&e));
+            let seed = parse_u64(&arg_val(&args, "--seed").unwrap_or_else(|| "1".into()));
+            let single = parse_u64(&arg_val(&args, "--single-slice").unwrap_or_else(|| "0".into()));
+            let (code, rep) = c11big::main(variant, &pattern, seed, if single > 0 { Some(single) } else { None });
+            println!("{}", serde_json::to_string(&rep).unwrap());
+            code
+        }
+        "hashfile" => {
+            let dir = arg_val(&args, "--dir").unwrap_or_else(|| harness_error("--dir"));
+            let seed = parse_u64(&arg_val(&args, "--seed").unwrap_or_else(|| "1".into()));
+            let (code, rep) = c12file::main(&dir, seed);
+            println!("{}", serde_json::to_string(&rep).unwrap());
+            code
+        }
+        "hashfile-one" => {
+            println!("{}", c12file::one(&arg_val(&args, "--path").unwrap_or_else(|| harness_error("--path"))));
+            0
+        }
         "race" => {
             // C07 (c): first-call race on real threads (meant to run under Miri and natively)
             let seed = parse_u64(&arg_val(&args, "--seed").unwrap_or_else(|| "20260926".into()));
